@@ -428,14 +428,19 @@ func (e *Env) Exec(line string) []Step {
 		}
 		return finish(fmt.Sprintf("slash %d %s", v, decRaw(eff)), res, evs)
 	case "endblock":
-		res, _, evs := e.runDirect(func(ctx sdk.Context) error { return alliance.EndBlocker(ctx, k) })
+		res, _, evs := e.runDirect(func(ctx sdk.Context) error { return e.moduleEndBlock(ctx) })
 		return finish("endblock", res, evs)
 	case "reimport":
 		// C18: export the module state, wipe the module store, import the exported genesis
 		res, _, evs := e.runDirect(func(ctx sdk.Context) error {
-			gs := k.ExportGenesis(ctx)
-			again := k.ExportGenesis(ctx)
-			if fmt.Sprint(gs) != fmt.Sprint(again) {
+			// through the registered module: JSON export, JSON import (module.go, the genesis types' codec)
+			mg, err := e.moduleGenesis()
+			if err != nil {
+				return err
+			}
+			cdc := e.App.AppCodec()
+			raw := mg.ExportGenesis(ctx, cdc)
+			if string(raw) != string(mg.ExportGenesis(ctx, cdc)) {
 				return fmt.Errorf("two exports of one state differ")
 			}
 			store := k.StoreService().OpenKVStore(ctx)
@@ -453,9 +458,9 @@ func (e *Env) Exec(line string) []Step {
 					return err
 				}
 			}
-			k.InitGenesis(ctx, gs)
-			second := k.ExportGenesis(ctx)
-			if fmt.Sprint(gs) != fmt.Sprint(second) {
+			mg.InitGenesis(ctx, cdc, raw)
+			second := mg.ExportGenesis(ctx, cdc)
+			if string(raw) != string(second) {
 				e.reimportNote = "mon C18 fail class=second_export_differs export after import differs from the first export"
 			}
 			return nil
